@@ -403,3 +403,231 @@ pub mod drift {
         }
     }
 }
+
+// ================================================================================================
+// Solend stand-in (same idea): refresh_reserve (3), init_obligation (6), refresh_obligation (7),
+// deposit_reserve_liquidity_and_obligation_collateral (14) and
+// withdraw_obligation_collateral_and_redeem_reserve_collateral (15) on the real `SolendMinimalReserve` layout
+// (one version byte, then the packed struct) and Solend's 1300-byte obligation layout (offsets of
+// solend_mocks::state). Exchange rate in exact integers on the 10^18-scaled ("wad") total:
+// collateral = floor(liquidity * supply * 10^18 / total_wads), liquidity = floor(collateral * total_wads /
+// (supply * 10^18)), total_wads = available * 10^18 + borrowed_wads - fees_wads.
+// ================================================================================================
+pub mod solend {
+    use solana_program::{
+        account_info::AccountInfo, entrypoint::ProgramResult, program::invoke, program::invoke_signed, program_error::ProgramError, pubkey::Pubkey,
+    };
+    use solend_mocks::state::{SolendMinimalReserve, OBLIGATION_LEN, RESERVE_LEN};
+
+    pub const SOLEND: Pubkey = marginfi::constants::SOLEND_PROGRAM_ID;
+    const WAD: u128 = 1_000_000_000_000_000_000;
+    pub const STALE: u32 = 0x4b4d_0003;
+
+    pub fn lending_market_authority(market: &Pubkey) -> (Pubkey, u8) {
+        Pubkey::find_program_address(&[&market.to_bytes()[..32]], &SOLEND)
+    }
+
+    fn with_reserve<T>(ai: &AccountInfo, f: impl FnOnce(&mut SolendMinimalReserve) -> T) -> Result<T, ProgramError> {
+        if *ai.owner != SOLEND {
+            return Err(ProgramError::IllegalOwner);
+        }
+        let mut d = ai.try_borrow_mut_data()?;
+        if d.len() != RESERVE_LEN || d[0] != 1 {
+            return Err(ProgramError::InvalidAccountData);
+        }
+        let mut r: SolendMinimalReserve = bytemuck::pod_read_unaligned(&d[1..RESERVE_LEN]);
+        let out = f(&mut r);
+        d[1..RESERVE_LEN].copy_from_slice(bytemuck::bytes_of(&r));
+        Ok(out)
+    }
+
+    /// (owner, lending market, deposits_len, first deposit reserve, first deposit amount)
+    fn obligation_read(ai: &AccountInfo) -> Result<(Pubkey, Pubkey, u8, Pubkey, u64), ProgramError> {
+        if *ai.owner != SOLEND {
+            return Err(ProgramError::IllegalOwner);
+        }
+        let d = ai.try_borrow_data()?;
+        if d.len() < OBLIGATION_LEN || d[0] != 1 {
+            return Err(ProgramError::InvalidAccountData);
+        }
+        let pk = |o: usize| Pubkey::new_from_array(d[o..o + 32].try_into().unwrap());
+        Ok((pk(42), pk(10), d[202], pk(204), u64::from_le_bytes(d[236..244].try_into().unwrap())))
+    }
+
+    fn obligation_set_deposit(ai: &AccountInfo, reserve: &Pubkey, amount: u64) -> ProgramResult {
+        let mut d = ai.try_borrow_mut_data()?;
+        d[202] = 1;
+        d[204..236].copy_from_slice(reserve.as_ref());
+        d[236..244].copy_from_slice(&amount.to_le_bytes());
+        Ok(())
+    }
+
+    fn total_wads(r: &SolendMinimalReserve) -> u128 {
+        ((r.liquidity_available_amount as u128) * WAD + u128::from_le_bytes(r.liquidity_borrowed_amount_wads))
+            .saturating_sub(u128::from_le_bytes(r.liquidity_accumulated_protocol_fees_wads))
+    }
+
+    // 256-bit helpers are not needed: amounts in the harness stay far below 2^64 * 10^18 / 2^64
+    fn mul_div(a: u128, b: u128, c: u128) -> Option<u128> {
+        if c == 0 {
+            return None;
+        }
+        // a * b / c with a 256-bit intermediate (schoolbook on 64-bit halves)
+        let (ah, al) = (a >> 64, a & u64::MAX as u128);
+        let (bh, bl) = (b >> 64, b & u64::MAX as u128);
+        if ah != 0 && bh != 0 {
+            return None;
+        }
+        // product = (ah*bl + al*bh) << 64 + al*bl   (one of ah, bh is zero)
+        let mid = ah.checked_mul(bl)?.checked_add(al.checked_mul(bh)?)?;
+        let lo = al * bl;
+        let hi = (mid >> 64) + ((((mid & u64::MAX as u128) << 64).overflowing_add(lo)).1 as u128);
+        let lo2 = ((mid & u64::MAX as u128) << 64).wrapping_add(lo);
+        // divide the 256-bit value (hi, lo2) by c, bit by bit
+        if hi >= c {
+            return None;
+        }
+        let (mut rem, mut q) = (hi, 0u128);
+        for i in (0..128).rev() {
+            let bit = (lo2 >> i) & 1;
+            let carry = rem >> 127;
+            rem = (rem << 1) | bit;
+            if carry == 1 || rem >= c {
+                rem = rem.wrapping_sub(c);
+                q |= 1u128 << i;
+            }
+        }
+        Some(q)
+    }
+
+    fn spl_transfer<'a>(tprog: &AccountInfo<'a>, from: &AccountInfo<'a>, to: &AccountInfo<'a>, auth: &AccountInfo<'a>, amount: u64, seeds: Option<&[&[u8]]>) -> ProgramResult {
+        #[allow(deprecated)]
+        let ix = spl_token::instruction::transfer(tprog.key, from.key, to.key, auth.key, &[], amount)?;
+        let infos = [from.clone(), to.clone(), auth.clone(), tprog.clone()];
+        match seeds {
+            Some(s) => invoke_signed(&ix, &infos, &[s]),
+            None => invoke(&ix, &infos),
+        }
+    }
+
+    pub fn process(accounts: &[AccountInfo], data: &[u8]) -> ProgramResult {
+        let tag = *data.first().ok_or(ProgramError::InvalidInstructionData)?;
+        let slot = {
+            use solana_program::sysvar::Sysvar;
+            solana_program::clock::Clock::get()?.slot
+        };
+        match tag {
+            3 => {
+                let reserve = accounts.first().ok_or(ProgramError::NotEnoughAccountKeys)?;
+                with_reserve(reserve, |r| {
+                    r.last_update_slot = slot;
+                    r.last_update_stale = 0;
+                })
+            }
+            7 => Ok(()),
+            6 => {
+                // 0 obligation (created by the caller: owned by this program, zeroed), 1 lending market, 2 owner (signer)
+                if accounts.len() < 3 {
+                    return Err(ProgramError::NotEnoughAccountKeys);
+                }
+                let (obligation, market, owner) = (&accounts[0], &accounts[1], &accounts[2]);
+                if !owner.is_signer {
+                    return Err(ProgramError::MissingRequiredSignature);
+                }
+                if *obligation.owner != SOLEND {
+                    return Err(ProgramError::IllegalOwner);
+                }
+                let mut d = obligation.try_borrow_mut_data()?;
+                if d.len() < OBLIGATION_LEN {
+                    return Err(ProgramError::AccountDataTooSmall);
+                }
+                if d[0] != 0 {
+                    return Err(ProgramError::AccountAlreadyInitialized);
+                }
+                d[0] = 1;
+                d[1..9].copy_from_slice(&slot.to_le_bytes());
+                d[10..42].copy_from_slice(market.key.as_ref());
+                d[42..74].copy_from_slice(owner.key.as_ref());
+                Ok(())
+            }
+            14 => {
+                if accounts.len() < 14 || data.len() < 9 {
+                    return Err(ProgramError::NotEnoughAccountKeys);
+                }
+                let amount = u64::from_le_bytes(data[1..9].try_into().unwrap());
+                let (source, reserve, supply_vault, market, obligation, owner, xfer_auth, tprog) =
+                    (&accounts[0], &accounts[2], &accounts[3], &accounts[5], &accounts[8], &accounts[9], &accounts[12], &accounts[13]);
+                if !owner.is_signer || !xfer_auth.is_signer {
+                    return Err(ProgramError::MissingRequiredSignature);
+                }
+                let (stale, vault, rmarket) = with_reserve(reserve, |r| (r.last_update_slot < slot, r.liquidity_supply_pubkey, r.lending_market))?;
+                if stale {
+                    return Err(ProgramError::Custom(STALE));
+                }
+                if vault != *supply_vault.key || rmarket != *market.key {
+                    return Err(ProgramError::InvalidArgument);
+                }
+                let (oowner, omarket, n, ores, oamt) = obligation_read(obligation)?;
+                if oowner != *owner.key || omarket != *market.key || (n == 1 && ores != *reserve.key) || n > 1 {
+                    return Err(ProgramError::InvalidArgument);
+                }
+                let collateral: u64 = with_reserve(reserve, |r| {
+                    let total = total_wads(r);
+                    let sup = r.collateral_mint_total_supply as u128;
+                    let c = if total == 0 || sup == 0 { Some(amount as u128) } else { mul_div((amount as u128) * sup, WAD, total) };
+                    c.and_then(|c| u64::try_from(c).ok()).map(|c| {
+                        r.liquidity_available_amount = r.liquidity_available_amount.saturating_add(amount);
+                        r.collateral_mint_total_supply = r.collateral_mint_total_supply.saturating_add(c);
+                        c
+                    })
+                })?
+                .ok_or(ProgramError::ArithmeticOverflow)?;
+                obligation_set_deposit(obligation, reserve.key, if n == 1 { oamt } else { 0 }.checked_add(collateral).ok_or(ProgramError::ArithmeticOverflow)?)?;
+                spl_transfer(tprog, source, supply_vault, xfer_auth, amount, None)
+            }
+            15 => {
+                if accounts.len() < 13 || data.len() < 9 {
+                    return Err(ProgramError::NotEnoughAccountKeys);
+                }
+                let collateral = u64::from_le_bytes(data[1..9].try_into().unwrap());
+                let (reserve, obligation, market, lma, dest, supply_vault, owner, tprog) =
+                    (&accounts[2], &accounts[3], &accounts[4], &accounts[5], &accounts[6], &accounts[8], &accounts[9], &accounts[11]);
+                if !owner.is_signer {
+                    return Err(ProgramError::MissingRequiredSignature);
+                }
+                let (stale, vault, rmarket) = with_reserve(reserve, |r| (r.last_update_slot < slot, r.liquidity_supply_pubkey, r.lending_market))?;
+                if stale {
+                    return Err(ProgramError::Custom(STALE));
+                }
+                if vault != *supply_vault.key || rmarket != *market.key {
+                    return Err(ProgramError::InvalidArgument);
+                }
+                let (oowner, omarket, n, ores, oamt) = obligation_read(obligation)?;
+                if oowner != *owner.key || omarket != *market.key || n != 1 || ores != *reserve.key || oamt < collateral {
+                    return Err(ProgramError::InsufficientFunds);
+                }
+                obligation_set_deposit(obligation, reserve.key, oamt - collateral)?;
+                let liquidity: u64 = with_reserve(reserve, |r| {
+                    let total = total_wads(r);
+                    let sup = r.collateral_mint_total_supply as u128;
+                    let l = if sup == 0 { Some(0) } else { mul_div(collateral as u128, total, sup * WAD) };
+                    l.map(|l| {
+                        let l = l.min(r.liquidity_available_amount as u128) as u64;
+                        r.liquidity_available_amount -= l;
+                        r.collateral_mint_total_supply = r.collateral_mint_total_supply.saturating_sub(collateral);
+                        l
+                    })
+                })?
+                .ok_or(ProgramError::ArithmeticOverflow)?;
+                let (expect, bump) = lending_market_authority(market.key);
+                if expect != *lma.key {
+                    return Err(ProgramError::InvalidSeeds);
+                }
+                let mk = market.key.to_bytes();
+                let seeds: &[&[u8]] = &[&mk[..32], &[bump]];
+                spl_transfer(tprog, supply_vault, dest, lma, liquidity, Some(seeds))
+            }
+            _ => Ok(()),
+        }
+    }
+}
